@@ -513,7 +513,9 @@ func (bc *buildCtx) runStepTwin(f fmt.State, st *D, verb rune, ctx int) {
 			fmt.Fprint(f, bc.plains(st.Sub)...)
 			io.WriteString(f, "\x02")
 		} else {
-			fmt.Fprint(f, bc.twins(st.Sub, ctx)...)
+			tw := bc.twins(st.Sub, ctx)
+			bc.checkSprintKinds(st.Sub, tw)
+			fmt.Fprint(f, tw...)
 		}
 	case "sPrintf":
 		if ctx == ctxUnsafe {
@@ -533,6 +535,19 @@ func (bc *buildCtx) runStepTwin(f fmt.State, st *D, verb rune, ctx int) {
 }
 
 // ---- the fmt-side twin ---------------------------------------------------------
+
+// checkSprintKinds: Print-style calls put a space between operands unless
+// one of them is of string kind; a stand-in of another kind than the real
+// operand would be spaced differently, so such cases have no faithful twin.
+func (bc *buildCtx) checkSprintKinds(ds []*D, tw []interface{}) {
+	rb := &buildCtx{registered: bc.registered}
+	for i, d := range ds {
+		rv := rb.real(d)
+		if (rv != nil && reflect.TypeOf(rv).Kind() == reflect.String) != (tw[i] != nil && reflect.TypeOf(tw[i]).Kind() == reflect.String) {
+			bc.fail("Print operand of string kind")
+		}
+	}
+}
 
 func (bc *buildCtx) twins(ds []*D, ctx int) []interface{} {
 	out := make([]interface{}, len(ds))
@@ -676,6 +691,12 @@ func (bc *buildCtx) twin(d *D, ctx int) interface{} {
 	case "Safe":
 		return bc.twinSafe(d.Sub[0])
 	case "Unsafe":
+		if d.Sub[0].K == "nil" {
+			// fmt pads a top-level nil but not a nil inside a container; a
+			// bracket stand-in cannot tell the two positions apart.
+			bc.fail("Unsafe(nil)")
+			return nil
+		}
 		return brk{bc.plain(d.Sub[0])}
 	case "RS", "RB", "Builder", "PBuilder":
 		bc.redactables = append(bc.redactables, string(bc.redactableOf(d)))
@@ -685,7 +706,7 @@ func (bc *buildCtx) twin(d *D, ctx int) interface{} {
 	case "SafeFmtErr":
 		return tSafeFmtTwin{d.Sub, bc, ctxNone}
 	case "SafeMsg":
-		return string(d.S) // printed as a safe string under the directive
+		return strTwin{string(d.S)} // printed as a safe string under the directive
 	case "slice":
 		return bc.twins(d.Sub, ctx)
 	case "arr":
@@ -719,14 +740,21 @@ func (bc *buildCtx) twin(d *D, ctx int) interface{} {
 		if _, isBrk := v.(brk); isBrk {
 			return v
 		}
+		if v == nil {
+			bc.fail("reflect.Value of a wrapper around nil") // reflect.ValueOf(nil) is the invalid Value
+			return nil
+		}
 		return reflect.ValueOf(v)
 	}
 	if bc.isSafeKind(d.K) {
-		return bc.plain(d)
+		return bc.twinSafe(d) // safe as a whole; redactables inside keep their own envelopes
 	}
 	if !leafBracketable(d.K) {
 		bc.fail("no faithful twin for kind " + d.K)
 		return nil
+	}
+	if d.K == "string" || d.K == "NStr" {
+		return brkStr(d.S) // a stand-in of string kind (Sprint spaces operands by kind)
 	}
 	return brk{bc.real(d)}
 }
@@ -753,7 +781,7 @@ func (bc *buildCtx) twinSafe(d *D) interface{} {
 	case "SafeFmt", "SafeFmtErr":
 		return tSafeFmtTwin{d.Sub, bc, ctxSafe}
 	case "SafeMsg":
-		return string(d.S)
+		return strTwin{string(d.S)}
 	case "slice":
 		return bc.twins(d.Sub, ctxSafe)
 	case "arr":
@@ -787,7 +815,12 @@ func (bc *buildCtx) twinSafe(d *D) interface{} {
 		p.Elem().Set(reflect.ValueOf(v))
 		return p.Interface()
 	case "RValue":
-		return reflect.ValueOf(bc.twinSafe(d.Sub[0]))
+		v := bc.twinSafe(d.Sub[0])
+		if v == nil {
+			bc.fail("reflect.Value of a wrapper around nil")
+			return nil
+		}
+		return reflect.ValueOf(v)
 	}
 	if containsWrapper(d) {
 		bc.fail("wrapper below kind " + d.K + " in safe context")
